@@ -86,6 +86,15 @@ fn alpha_padding_site(sc: &Scenario) -> &'static str {
             return "alpha_blend_with_padded_colour_region";
         }
     }
+    if p["extra"].as_array().map(|a| a.iter().any(|e| e["dim_shift"].as_u64().unwrap_or(0) > 0)).unwrap_or(false) {
+        return "upsampled_channel";
+    }
+    for f in &frames {
+        let up = f["upsampling"].as_u64().unwrap_or(1) > 1 || f["ec_upsampling"].as_array().map(|a| a.iter().any(|u| u.as_u64().unwrap_or(1) > 1)).unwrap_or(false);
+        if up {
+            return "upsampled_channel";
+        }
+    }
     "other"
 }
 
